@@ -192,6 +192,10 @@ def _hook(u):
     _unraisable.append(u.exc_value)
 
 
+def _quiet(u):
+    pass
+
+
 def run_ops(kind, fn, ops):
     """Drive a fresh object of ``fn`` through ``ops``; -> (observations, log)."""
     old = sys.unraisablehook
@@ -315,6 +319,7 @@ def kind_ops(kind, ops):
 def _replay_group(job):
     """child: all rows of one body (one kind).  -> list of per-row results"""
     kind, bidx, body, rows = job
+    sys.unraisablehook = _quiet        # late finalisation of objects of excluded histories: not an observation
     tree = tree_of(body)
     plain, dec, src = define(kind, tree, bidx)
     out = []
@@ -558,6 +563,7 @@ def rand_tree(rnd, depth, top=True):
 def _record_group(job):
     """child: one random body, several operation sequences; -> events of both objects."""
     kind, bidx, tree, seqs = job
+    sys.unraisablehook = _quiet
     plain, dec, src = define(kind, tree, bidx)
     out = []
     for ops in seqs:
@@ -610,6 +616,12 @@ def trace_run(rec):
         return ex
 
 
+def _trace_runs(recs):
+    from concurrent.futures import ThreadPoolExecutor
+    with ThreadPoolExecutor(max_workers=3) as t:
+        return list(t.map(trace_run, recs))
+
+
 def trace_judge(rep, rec, res_t):
     kind, path, index, jobs, ntr = rec["kind"], rec["path"], rec["index"], rec["jobs"], rec["ntr"]
     res_t = _check(res_t)
@@ -646,11 +658,20 @@ def trace_judge(rep, rec, res_t):
 
 
 # =========================================================================== orchestration
-def _tlc_many(jobs, par=4):
-    """run several TLC jobs concurrently (threads; each JVM gets 16/par workers).
+def wrap_of(kind):
+    """which transcription of the wrapper describes the tree under test: the async loop with the
+    'except GeneratorExit' arm (0.23.0, "faithful") or without it ("fixed", the proposed repair)."""
+    if kind != "agen":
+        return "faithful"
+    from beartype._data.check.code.pep import datacodepep525
+    return "faithful" if "except GeneratorExit" in datacodepep525.CODE_PEP525_RETURN_CHECKED else "fixed"
+
+
+def _tlc_many(jobs, par=4, workers=None):
+    """run several TLC jobs concurrently (threads; each JVM gets 16/par workers unless given).
     jobs: list of (label, cfg, kwargs) -> list of TLCResult | Exception."""
     from concurrent.futures import ThreadPoolExecutor
-    w = max(2, 16 // max(1, min(par, len(jobs))))
+    w = workers or max(2, 16 // max(1, min(par, len(jobs))))
 
     def one(j):
         label, cfg, kw = j
@@ -668,13 +689,13 @@ def _check(res):
     return res
 
 
-def _design_runs(rep, d, tier):
+def _design_jobs(d, tier):
     """R1 without the case table: mutants, the F7 exhibit, the repaired loop, deep lock step."""
     jobs = []
     for kind in KINDS:
         g = dict(G_MUT, ops=kind_ops(kind, G_MUT["ops"]))
-        jobs.append((("exhibit", kind, "faithful"),
-                     make_cfg(d, f"ex_{kind}", kind, "faithful", g, keep=True, emit=False, invs=["LockStep"]), {}))
+        jobs.append((("exhibit", kind, wrap_of(kind)),
+                     make_cfg(d, f"ex_{kind}", kind, wrap_of(kind), g, keep=True, emit=False, invs=["LockStep"]), {}))
         for m in MUTANTS[kind]:
             jobs.append((("mutant", kind, m),
                          make_cfg(d, f"mut_{kind}_{m}", kind, m, g, keep=True, emit=False, invs=["LockStepModF7"]), {}))
@@ -684,15 +705,22 @@ def _design_runs(rep, d, tier):
     deep = dict(G_TRY, maxops=4 if tier == "quick" else 6, postmax=1 if tier == "quick" else 2)
     for kind in KINDS:
         g = dict(deep, ops=kind_ops(kind, deep["ops"]))
-        jobs.append((("deep", kind, "faithful"),
-                     make_cfg(d, f"deep_{kind}", kind, "faithful", g, keep=False, emit=False,
+        jobs.append((("deep", kind, wrap_of(kind)),
+                     make_cfg(d, f"deep_{kind}", kind, wrap_of(kind), g, keep=False, emit=False,
                               invs=["TypeOK", "LockStepModF7", "NoOrphan"]), {}))
-    results = _tlc_many(jobs, par=4)
+    return jobs
+
+
+def _design_judge(rep, jobs, results):
+    results = list(results)
     model_broken = []
     for (what, kind, wrap), cfg, _ in jobs:
         res = _check(results.pop(0))
         rep.tlc(res, f"GenProto {what} {kind} {wrap}")
-        if what == "exhibit":
+        if what == "exhibit" and wrap == "fixed":
+            if res.violated:
+                rep.machinery(f"GenProto.tla ({kind}, Wrap=fixed) violates {res.violated}")
+        elif what == "exhibit":
             st = res.error_trace[-1][1] if res.error_trace else {}
             ok = (res.violated == "LockStep" and st.get("ops", ("",))[-1] == "tGE" and st["po"][-1]["k"] == "stop"
                   and st["co"][-1] == {"k": "raise", "c": "GeneratorExit", "v": ""})
@@ -733,42 +761,47 @@ def _table_runs(rep, d, tier, pool):
         for kind in KINDS:
             g = dict(g0, ops=kind_ops(kind, g0["ops"]))
             invs = ["TypeOK", "LockStepModF7", "NoOrphan", "Emit"] + (["EmitCode"] if name != "straight" else [])
-            jobs.append(((name, kind), make_cfg(d, f"tab_{name}_{kind}", kind, "faithful", g, keep=True, emit=True,
+            jobs.append(((name, kind), make_cfg(d, f"tab_{name}_{kind}", kind, wrap_of(kind), g, keep=True, emit=True,
                                                 invs=invs), {"coverage": False}))
     model_broken = []
     cmp = Compare(rep, "case table of GenProto.tla")
     stats = {k: {"ops": {}, "obs": {}, "f7": 0, "excl": 0, "log": 0} for k in KINDS}
-    results = _tlc_many(jobs, par=3)
-    for ((name, kind), cfg, _), res in zip(jobs, results):
-        res = _check(res)
-        rep.tlc(res, f"GenProto table {name} {kind}")
-        if res.violated:
-            model_broken.append((kind, res.violated, res.error_trace[-1][1] if res.error_trace else {}))
-            continue
-        rows = [r for r in res.printed if isinstance(r, list) and len(r) == 9]
-        codes = [r for r in res.printed if isinstance(r, list) and len(r) == 3]
-        res.printed = None
-        res.output = ""
-        if not rows:
-            rep.machinery(f"GenProto table {name} {kind}: TLC emitted no rows")
-        for body, code, h in codes:
-            c2, h2 = compile_tree(tree_of(body))
-            rep.count()
-            if c2 != code or h2 != h:
-                rep.machinery(f"driver compile_tree disagrees with GenProto!Compile on {body}: {c2} {h2} vs {code} {h}")
-        st = stats[kind]
-        for r in rows:
-            for o in r[1]:
-                st["ops"][o] = st["ops"].get(o, 0) + 1
-            for o in r[2]:
-                k = o.split("|")[0]
-                st["obs"][k] = st["obs"].get(k, 0) + 1
-            st["f7"] += any(r[8])
-            st["excl"] += bool(r[7])
-            st["log"] += bool(r[5])
-        replay_rows(rep, pool, kind, rows, f"case table {name}", cmp)
-        rep.add("rows_replayed", len(rows))
-        rep.add("traces_validated_against_impl", len(rows))
+    for i in range(0, len(jobs), 3):           # one configuration (three kinds) at a time: bounded memory
+        batch = jobs[i:i + 3]
+        outs = _tlc_many(batch, par=3, workers=3)
+        for ((name, kind), cfg, _), res in zip(batch, outs):
+            res = _check(res)
+            rep.tlc(res, f"GenProto table {name} {kind}")
+            if res.violated:
+                model_broken.append((kind, res.violated, res.error_trace[-1][1] if res.error_trace else {}))
+                continue
+            rows = [r for r in res.printed if isinstance(r, list) and len(r) == 9]
+            codes = [r for r in res.printed if isinstance(r, list) and len(r) == 3]
+            res.printed = None
+            res.output = ""
+            if not rows:
+                rep.machinery(f"GenProto table {name} {kind}: TLC emitted no rows")
+            for body, code, h in codes:
+                c2, h2 = compile_tree(tree_of(body))
+                rep.count()
+                if c2 != code or h2 != h:
+                    rep.machinery(f"driver compile_tree disagrees with GenProto!Compile on {body}: "
+                                  f"{c2} {h2} vs {code} {h}")
+            st = stats[kind]
+            for r in rows:
+                for o in r[1]:
+                    st["ops"][o] = st["ops"].get(o, 0) + 1
+                for o in r[2]:
+                    k = o.split("|")[0]
+                    st["obs"][k] = st["obs"].get(k, 0) + 1
+                st["f7"] += any(r[8])
+                st["excl"] += bool(r[7])
+                st["log"] += bool(r[5])
+            replay_rows(rep, pool, kind, rows, f"case table {name}", cmp)
+            rep.add("rows_replayed", len(rows))
+            rep.add("traces_validated_against_impl", len(rows))
+            del rows
+        del outs
         if cmp.machinery:
             break
     if cmp.machinery:
@@ -777,7 +810,7 @@ def _table_runs(rep, d, tier, pool):
     for kind, st in stats.items():
         missing = [o for o in kind_ops(kind, TABLES[tier][0][1]["ops"]) + ["del"] if not st["ops"].get(o)]
         missing += [k for k in ("yield", "stop", "raise", "ok") if not st["obs"].get(k)]
-        missing += [k for k in ("f7", "excl", "log") if not st[k]]
+        missing += [k for k in ("f7", "excl", "log") if not st[k] and not (k == "f7" and wrap_of(kind) == "fixed")]
         if missing and not model_broken:
             rep.machinery(f"vacuous case table for {kind}: never seen {missing}")
     rep.cov["table_stats"] = {k: {"f7_rows": v["f7"], "excluded_rows": v["excl"], "rows_with_side_effects": v["log"],
@@ -822,19 +855,24 @@ def run(rep, tier, seed):
     warnings.simplefilter("ignore")
     import beartype  # noqa: F401  (children fork from here)
     with scratch("c08-") as d:
-        pool = mp.get_context("fork").Pool(16)
+        pool = mp.get_context("fork").Pool(16)          # forked before any thread exists
+        from concurrent.futures import ThreadPoolExecutor
+        tp = ThreadPoolExecutor(max_workers=2)
         try:
-            broken = _design_runs(rep, d, tier)
-            broken += _table_runs(rep, d, tier, pool)
+            # the three groups of TLC runs overlap: design-level runs (2 JVMs), trace validation
+            # (3 single-threaded JVMs) and the case tables (3 JVMs), whose rows are replayed here
+            djobs = _design_jobs(d, tier)
+            dfut = tp.submit(_tlc_many, djobs, 2, 3)
             nb, ns, sl = (150, 4, 10) if tier == "quick" else (1000, 5, 14)
             recs = [trace_record(pool, d, kind, seed, nb, ns, sl) for kind in KINDS]
-            from concurrent.futures import ThreadPoolExecutor
-            with ThreadPoolExecutor(max_workers=3) as tp:
-                outs = list(tp.map(trace_run, recs))
-            for rec, out in zip(recs, outs):
+            tfut = tp.submit(_trace_runs, recs)
+            broken = _table_runs(rep, d, tier, pool)
+            for rec, out in zip(recs, tfut.result()):
                 trace_judge(rep, rec, out)
+            broken += _design_judge(rep, djobs, dfut.result())
             _hint_mismatch(rep)
         finally:
+            tp.shutdown(wait=True)
             pool.terminate()
             pool.join()
     if broken:
